@@ -1,6 +1,6 @@
 (** C05 — proofs about Model/Vary.v. *)
 From Coq Require Import Sorting.Sorted.
-From KV Require Import Bytes RustInt Range CacheControl Cache CacheProofs Fixture RustStd Vary.
+From KV Require Import Bytes RustInt Range CacheControl Cache CacheProofs Fixture RustStd RustStdProofs Vary.
 From Coq Require Import ZifyBool ZifyNat ZifyN.
 Open Scope N_scope.
 
